@@ -102,48 +102,110 @@ Theorem C12_set_name_iff : forall owner_is_sm attr sname,
   set_name owner_is_sm attr sname = Ok tt <-> attr = sname /\ owner_is_sm = true.
 Proof. exact set_name_ok_iff. Qed.
 
-(* ... so a class statement whose body leaves a state bound under a different
-   attribute name, or whose class is not a StateMachine, raises *)
-Theorem C12_alias_owner : forall reserved owner_is_sm body k d,
-  binds_state body k d -> k <> d_fname d \/ owner_is_sm = false ->
-  exists e, define_class reserved owner_is_sm body = Err e.
+(* A class body is a list of bindings, in source order:  @state def k ..
+   ([SState]), a non-state ([SOther]),  k = k'  ([SLocal k'], the object the
+   class namespace holds under k' at that line) and  k = C_c.__dict__[k']
+   ([SRef c k'], the object an earlier class holds) -- the last two bind an
+   EXISTING state object a second time.  [dicts] are the __dict__ of the
+   classes defined before.
+     [binds_state reserved dicts body k s]  the body finally leaves the state
+        object s bound under k (name lookup: the nearest preceding binding);
+     [entry_ok reserved dicts before m]     the line m can be executed after
+        the lines [before]: its decorated function has a free name and a legal
+        signature, resp. the name it reads is bound.
+
+   __set_name__ runs for every binding, so a class statement whose body leaves
+   a state bound under a different attribute name, or whose class is not a
+   StateMachine, raises -- whether this is the first binding of that state
+   object or a later one *)
+Theorem C12_alias_owner : forall reserved dicts owner_is_sm body k s,
+  binds_state reserved dicts body k s -> k <> s_name s \/ owner_is_sm = false ->
+  exists e, define_class reserved dicts owner_is_sm body = Err e.
 Proof. exact alias_owner_rejected. Qed.
 
-(* with InvalidStateName resp. TypeError when the decorators themselves
-   accepted every function *)
-Theorem C12_alias_owner_error : forall reserved owner_is_sm body ns e,
-  eval_body reserved body [] = Ok ns -> define_class reserved owner_is_sm body = Err e ->
-  (e = EAlias /\ exists k d, binds_state body k d /\ k <> d_fname d) \/
-  (e = ENotStateMachine /\ owner_is_sm = false /\ exists k d, binds_state body k d).
+(* with InvalidStateName resp. TypeError when every line of the body itself
+   succeeded *)
+Theorem C12_alias_owner_error : forall reserved dicts owner_is_sm body ns e,
+  eval_body reserved dicts body [] = Ok ns -> define_class reserved dicts owner_is_sm body = Err e ->
+  (e = EAlias /\ exists k s, binds_state reserved dicts body k s /\ k <> s_name s) \/
+  (e = ENotStateMachine /\ owner_is_sm = false /\ exists k s, binds_state reserved dicts body k s).
 Proof. exact alias_owner_error. Qed.
 
-(* the class statement as a whole: accepted iff every decorated function in
-   the body (overridden later or not) has a free name and a legal signature,
-   and every state the body finally binds sits under its own name in a
+(* ... and these two exceptions come from __set_name__ only *)
+Theorem C12_define_err_kinds : forall reserved dicts owner_is_sm body e,
+  define_class reserved dicts owner_is_sm body = Err e ->
+  (e = EAlias \/ e = ENotStateMachine) <-> exists ns, eval_body reserved dicts body [] = Ok ns.
+Proof. exact define_err_kinds. Qed.
+
+(* the state keeps its name: a state created by a decorator is called like
+   the function, whatever it is bound to afterwards *)
+Theorem C12_state_name_fixed : forall reserved d s, construct reserved d = Ok s -> s_name s = d_fname d.
+Proof. exact (fun reserved d s H => proj1 (proj2 (proj2 (construct_ok reserved d s H)))). Qed.
+
+(*   @state def k(..): ..      (any lines that do not rebind k)
+     k2 = k                    (not rebound below)
+   is rejected unless k2 is the name of the function and the class is a
+   StateMachine: a second name in the same class body is not accepted because
+   the first binding was fine *)
+Theorem C12_second_name_same_body : forall reserved dicts owner_is_sm pre k d mid k2 post,
+  ~ In k (keys mid) -> ~ In k2 (keys post) -> k2 <> d_fname d \/ owner_is_sm = false ->
+  exists e, define_class reserved dicts owner_is_sm
+              (pre ++ (k, SState d) :: mid ++ (k2, SLocal k) :: post) = Err e.
+Proof. exact rebinding_local_rejected. Qed.
+
+(*   k = C_c.__dict__[k0]      (not rebound below), that object being a state:
+   a derived class, another machine or a plain class that picks up an existing
+   state is rejected unless k is the state's own name and the class is a
    StateMachine *)
-Theorem C12_define_ok_iff : forall reserved owner_is_sm body,
-  (exists ns, define_class reserved owner_is_sm body = Ok ns) <->
-  (forall k d, In (k, SState d) body -> ~ In (d_fname d) reserved /\ ~ sig_faulty (d_params d)) /\
-  (forall k d, binds_state body k d -> k = d_fname d /\ owner_is_sm = true).
+Theorem C12_state_taken_from_class : forall reserved dicts owner_is_sm pre k c k0 s post,
+  class_attr dicts c k0 = Some (MState s) -> ~ In k (keys post) ->
+  k <> s_name s \/ owner_is_sm = false ->
+  exists e, define_class reserved dicts owner_is_sm (pre ++ (k, SRef c k0) :: post) = Err e.
+Proof. exact rebinding_from_class_rejected. Qed.
+
+(* the class statement as a whole: accepted iff every line of the body can be
+   executed (every decorated function -- overridden later or not -- has a free
+   name and a legal signature, every name read is bound) and every state
+   object the body finally binds, new or picked up, sits under its own name in
+   a StateMachine *)
+Theorem C12_define_ok_iff : forall reserved dicts owner_is_sm body,
+  (exists ns, define_class reserved dicts owner_is_sm body = Ok ns) <->
+  (forall before k m after, body = before ++ (k, m) :: after -> entry_ok reserved dicts before m) /\
+  (forall k s, binds_state reserved dicts body k s -> k = s_name s /\ owner_is_sm = true).
 Proof. exact define_ok_iff. Qed.
 
+Theorem C12_define_ok_decorated : forall reserved dicts owner_is_sm body ns,
+  define_class reserved dicts owner_is_sm body = Ok ns ->
+  forall k d, In (k, SState d) body -> ~ In (d_fname d) reserved /\ ~ sig_faulty (d_params d).
+Proof. exact define_ok_decorated. Qed.
+
 (* a module of class statements: accepted iff each one is (judged with
-   issubclass(owner, StateMachine) derived from its bases); else the first
-   faulty class statement raises *)
+   issubclass(owner, StateMachine) derived from its bases and with the
+   __dict__ of the classes before it); else the first faulty class statement
+   raises *)
 Theorem C12_module : forall reserved cs,
   match define_all reserved cs with
   | Ok ds =>
       List.length ds = List.length cs /\
       forall i c, nth_error cs i = Some c ->
-        exists ns, define_class reserved (nth i (sm_flags cs) false) (c_body c) = Ok ns /\
+        exists ns, define_class reserved (firstn i ds) (nth i (sm_flags cs) false) (c_body c) = Ok ns /\
                    nth_error ds i = Some (ns ++ map (fun k => (k, MOther)) (c_extra c))
   | Err (j, e) =>
-      exists c, nth_error cs j = Some c /\
-        define_class reserved (nth j (sm_flags cs) false) (c_body c) = Err e /\
+      exists c ds, nth_error cs j = Some c /\ List.length ds = j /\
+        define_class reserved ds (nth j (sm_flags cs) false) (c_body c) = Err e /\
         forall i' c', i' < j -> nth_error cs i' = Some c' ->
-          exists ns, define_class reserved (nth i' (sm_flags cs) false) (c_body c') = Ok ns
+          exists ns, define_class reserved (firstn i' ds) (nth i' (sm_flags cs) false) (c_body c') = Ok ns /\
+                     nth_error ds i' = Some (ns ++ map (fun k => (k, MOther)) (c_extra c'))
   end.
 Proof. exact define_all_spec. Qed.
+
+(* in an accepted module every class __dict__ that holds a state object --
+   created there or taken from elsewhere -- holds it under the state's own
+   name, and that class is a StateMachine *)
+Theorem C12_module_states_wellplaced : forall reserved cs ds, define_all reserved cs = Ok ds ->
+  forall i d k s, nth_error ds i = Some d -> In (k, MState s) d ->
+    k = s_name s /\ nth i (sm_flags cs) false = true.
+Proof. exact define_all_wf. Qed.
 
 Theorem C12_direct_call : forall (A K : Type) (s : sdata) (args : list A) (kwargs : list (string * K)),
   call_state s args kwargs = Err IllegalCall.
@@ -235,10 +297,42 @@ Example C12_nv_definition_errors :
   (exists s, construct nv_reserved {| d_fname := "s"; d_params := [{| p_name := "self"; p_kind := PosOnly |}; nvp "tm"];
                                       d_doc := None; d_deco := DDefault |} = Ok s) /\
   (exists s, construct nv_reserved (nvd "s" [] None DDefault) = Ok s) /\
-  define_class nv_reserved true [("t", SState (nvd "s" ["self"] None (DState true false)))] = Err EAlias /\
-  define_class nv_reserved false [("s", SState (nvd "s" ["self"] None (DState true false)))] = Err ENotStateMachine /\
-  (exists ns, define_class nv_reserved false [("s", SState (nvd "s" ["self"] None (DState true false))); ("s", SOther)] = Ok ns).
+  define_class nv_reserved [] true [("t", SState (nvd "s" ["self"] None (DState true false)))] = Err EAlias /\
+  define_class nv_reserved [] false [("s", SState (nvd "s" ["self"] None (DState true false)))] = Err ENotStateMachine /\
+  (exists ns, define_class nv_reserved [] false [("s", SState (nvd "s" ["self"] None (DState true false))); ("s", SOther)] = Ok ns).
 Proof. repeat split; try reflexivity; eexists; reflexivity. Qed.
+
+(* second bindings of an existing state object.  C0 defines work (first,
+   timed) correctly; then:  again = work  in the same body;  a derived class
+   and an unrelated machine binding C0's state as retry;  a plain class
+   binding it as work;  -- all rejected --  and, accepted, a derived class and
+   another machine binding it under its own name (the other machine then has
+   exactly the states start, work). *)
+Definition nv_work := ("work", SState (nvd "work" ["self"; "tm"] (Some "does the work") (DTimed true false))).
+Definition nv_base : classdef := {| c_bases := [BSM]; c_body := [nv_work]; c_extra := ["work_duration"] |}.
+Definition nv_then (bases : list base) (body : list (string * smember)) : list classdef :=
+  [nv_base; {| c_bases := bases; c_body := body; c_extra := [] |}].
+
+Example C12_nv_second_binding :
+  define_all nv_reserved [{| c_bases := [BSM]; c_body := [nv_work; ("again", SLocal "work")]; c_extra := [] |}]
+    = Err (0, EAlias) /\
+  define_all nv_reserved [{| c_bases := [BSM]; c_body := [("again", SOther); nv_work; ("again", SLocal "work")];
+                             c_extra := [] |}] = Err (0, EAlias) /\
+  define_all nv_reserved (nv_then [BClass 0] [("retry", SRef 0 "work")]) = Err (1, EAlias) /\
+  define_all nv_reserved (nv_then [BSM] [("retry", SRef 0 "work")]) = Err (1, EAlias) /\
+  define_all nv_reserved (nv_then [] [("work", SRef 0 "work")]) = Err (1, ENotStateMachine) /\
+  define_all nv_reserved (nv_then [] [("retry", SRef 0 "work")]) = Err (1, EAlias) /\
+  define_all nv_reserved (nv_then [BSM] [("x", SLocal "nosuch")]) = Err (1, EUnbound) /\
+  define_all nv_reserved (nv_then [BSM] [("x", SRef 0 "nosuch")]) = Err (1, EUnbound) /\
+  (exists ds, define_all nv_reserved (nv_then [] [("work", SRef 0 "work"); ("work", SOther)]) = Ok ds) /\
+  (exists ds r, define_all nv_reserved (nv_then [BClass 0] [("work", SRef 0 "work")]) = Ok ds /\
+     instantiate ds [1; 0] = Ok r /\ r_names r = ["work"] /\ r_first r = "work") /\
+  (exists ds r, define_all nv_reserved
+       (nv_then [BSM] [("start", SState (nvd "start" ["self"] (Some "starts") (DState false false)));
+                       ("work", SRef 0 "work"); ("tmp", SLocal "work"); ("tmp", SOther)]) = Ok ds /\
+     instantiate ds [1] = Ok r /\ r_names r = ["start"; "work"] /\ r_descs r = ["starts"; "does the work"] /\
+     r_first r = "work").
+Proof. repeat split; try reflexivity; repeat eexists; vm_compute; reflexivity. Qed.
 
 (* the adapter really reorders: declared (self, state_tm, tm) *)
 Example C12_nv_adapter :
@@ -258,8 +352,14 @@ Print Assumptions C12_construct_ok_iff.
 Print Assumptions C12_set_name_iff.
 Print Assumptions C12_alias_owner.
 Print Assumptions C12_alias_owner_error.
+Print Assumptions C12_define_err_kinds.
+Print Assumptions C12_state_name_fixed.
+Print Assumptions C12_second_name_same_body.
+Print Assumptions C12_state_taken_from_class.
 Print Assumptions C12_define_ok_iff.
+Print Assumptions C12_define_ok_decorated.
 Print Assumptions C12_module.
+Print Assumptions C12_module_states_wellplaced.
 Print Assumptions C12_direct_call.
 Print Assumptions C12_names_exact.
 Print Assumptions C12_descs_aligned.
